@@ -976,6 +976,11 @@ bool TypeAuditor::ViFilter(Cursor iter) {
   }
   const auto& argument = std::get<Typification>(maybeArgument.value());
   if (argument.IsAnyType() || (argument.IsCollection() && argument.B().Base().IsAnyType())) {
+    for (Index child = 0; child + 1 < iter.ChildrenCount(); ++child) {
+      if (!ChildType(iter, child).has_value()) {
+        return false;
+      }
+    }
     return SetCurrent(Typification::EmptySet());
   }
   if (!argument.IsCollection() || !argument.B().Base().IsTuple()) {
